@@ -1,4 +1,5 @@
 import SimbodyProofs.ForceLaws_lemmas
+import SimbodyProofs.C37
 
 /-!
 # C12 — force elements' power matches their potential energy
@@ -394,6 +395,229 @@ theorem bushing_power_eq (X1 X2 : Pose K) (V1 V2 : Vel K) (XF XM : Pose K) (k c 
     have := mul_nonneg h6 (mul_self_nonneg o.qdot.t.z)
     linarith
   · intro hc; subst hc; simp [docBushingPower]
+
+/-! ### compliant contacts (at fixed contact geometry: the penetration `x` changes at the approach speed along the
+normal; the motion of the contact point over the surfaces is C35's subject) -/
+
+omit [LinearOrder K] [IsStrictOrderedRing K] in
+/-- power of `∓F` applied to two bodies at the same Ground point -/
+theorem pair_at_point_power (X1 X2 : Pose K) (V1 V2 : Vel K) (loc F : V3 K) :
+    (applyForceToBodyPoint X1 (X1.invApply loc) (-F)).power V1 + (applyForceToBodyPoint X2 (X2.invApply loc) F).power V2
+      = -(dot F (stationVel X1 V1 (X1.invApply loc) - stationVel X2 V2 (X2.invApply loc))) := by
+  simp only [applyForceToBodyPoint, applyAt_power, stationVel, dot, V3.sub_x, V3.sub_y, V3.sub_z, V3.add_x, V3.add_y,
+    V3.add_z, V3.neg_x, V3.neg_y, V3.neg_z]
+  ring
+
+/-- scalar core shared by the Hunt–Crossley-type laws `f = A (1 + γ v)`, `dPE/dt = A v`: the dissipation term
+`power + dPE/dt` is `≤ 0` both when the force is applied and when it is suppressed (`f ≤ 0`, "yanking") -/
+theorem contact_diss_nonpos (A γ vn fr : K) (hA : 0 ≤ A) (hγ : 0 ≤ γ) (hfr : 0 ≤ fr) :
+    (A * (1 + γ * vn) ≤ 0 → A * vn ≤ 0) ∧ (-(A * (1 + γ * vn) * vn + fr) + A * vn ≤ 0) := by
+  constructor
+  · intro h
+    rcases eq_or_lt_of_le hA with h0 | hpos
+    · rw [← h0]; simp
+    · have h1 : 1 + γ * vn ≤ 0 := by
+        by_contra hc; have := mul_pos hpos (not_le.mp hc); linarith
+      have hv : vn ≤ 0 := by
+        by_contra hc; have := mul_nonneg hγ (not_le.mp hc).le; linarith
+      exact mul_nonpos_of_nonneg_of_nonpos hA hv
+  · have : 0 ≤ A * γ * (vn * vn) := mul_nonneg (mul_nonneg hA hγ) (mul_self_nonneg vn)
+    nlinarith
+
+/-- Hertz energy as a function of the penetration -/
+def hertzPEofDepth {K : Type} [Mul K] [Div K] [OfNat K 2] [OfNat K 3] [OfNat K 4] [OfNat K 5]
+    (sqrt : K → K) (k R x : K) : K := 2 / 5 * (4 / 3 * k * x * sqrt (R * k * x)) * x
+
+/-- `d/dt (2/5 fH x) = fH ẋ` -/
+theorem hertzPE_rate (sqrt : K → K) (hs : SqrtSpec sqrt) (k R x xd : K) (hx : 0 ≤ R * k * x) (hne : sqrt (R * k * x) ≠ 0) :
+    (hertzPEofDepth (Jet.sqrt sqrt) (Jet.const k) (Jet.const R) (⟨x, xd⟩ : Jet K)).eps
+      = 4 / 3 * k * x * sqrt (R * k * x) * xd := by
+  have hsq := hs.sq _ hx
+  simp only [hertzPEofDepth, Jet.mul_eps, Jet.mul_re, Jet.div_eps, Jet.div_re, Jet.sqrt_re, Jet.sqrt_eps, Jet.const_re,
+    Jet.const_eps, Jet.re_2, Jet.eps_2, Jet.re_3, Jet.eps_3, Jet.re_4, Jet.eps_4, Jet.re_5, Jet.eps_5]
+  generalize sqrt (R * k * x) = s at hsq hne ⊢
+  field_simp
+  linear_combination (-(60 : K) * x * k * xd) * hsq
+
+/-- **HuntCrossleyForce**, one contact: `power = −d(PE)/dt + diss`, `diss ≤ 0`; here
+`d(PE)/dt = fH·vnormal` (`hertzPE_rate`) and `power + fH·vnormal` is the dissipation term -/
+theorem hc_power_eq (sqrt : K → K) (hs : SqrtSpec sqrt) (vt : K) (hvt : 0 < vt) (h : HCContact K)
+    (hn : normSq h.c.normal = 1)
+    (hk : 0 ≤ h.p1.stiffness * (h.p2.stiffness / (h.p1.stiffness + h.p2.stiffness))) (hx : 0 ≤ h.c.depth)
+    (hc : 0 ≤ h.p1.dissipation * (h.p2.stiffness / (h.p1.stiffness + h.p2.stiffness))
+              + h.p2.dissipation * (1 - h.p2.stiffness / (h.p1.stiffness + h.p2.stiffness)))
+    (hud : 0 ≤ combineMu h.p1.ud h.p2.ud) (hus : combineMu h.p1.ud h.p2.ud ≤ combineMu h.p1.us h.p2.us)
+    (huv : 0 ≤ combineMu h.p1.uv h.p2.uv) :
+    let o := hcContact sqrt vt h
+    (o.F1.power h.V1 + o.F2.power h.V2) + o.fH * o.vnormal ≤ 0
+    ∧ o.pe = hertzPEofDepth sqrt (h.p1.stiffness * (h.p2.stiffness / (h.p1.stiffness + h.p2.stiffness))) h.c.radius h.c.depth := by
+  refine ⟨?_, ?_⟩
+  · simp only [hcContact]
+    generalize hγ : (h.p1.dissipation * (h.p2.stiffness / (h.p1.stiffness + h.p2.stiffness))
+              + h.p2.dissipation * (1 - h.p2.stiffness / (h.p1.stiffness + h.p2.stiffness)) : K) = γ at hc ⊢
+    generalize hA : (4 / 3 * (h.p1.stiffness * (h.p2.stiffness / (h.p1.stiffness + h.p2.stiffness))) * h.c.depth
+      * sqrt (h.c.radius * (h.p1.stiffness * (h.p2.stiffness / (h.p1.stiffness + h.p2.stiffness))) * h.c.depth) : K) = A
+    have hA0 : 0 ≤ A := by
+      rw [← hA]
+      exact mul_nonneg (mul_nonneg (mul_nonneg (by norm_num) hk) hx) (hs.nonneg _)
+    generalize hloc : (h.c.location + smul (h.c.depth * (1 / 2 - h.p2.stiffness / (h.p1.stiffness + h.p2.stiffness))) h.c.normal : V3 K) = loc
+    generalize hv : (stationVel h.X1 h.V1 (h.X1.invApply loc) - stationVel h.X2 h.V2 (h.X2.invApply loc) : V3 K) = v
+    have hγ' : 0 ≤ 3 / 2 * γ := mul_nonneg (by norm_num) hc
+    have core := contact_diss_nonpos A (3 / 2 * γ) (dot v h.c.normal)
+    split_ifs with h1 h2
+    · dsimp only
+      have hz : (SpF.zero : SpF K).power h.V1 + (SpF.zero : SpF K).power h.V2 = 0 := by simp [SpF.power, dot]
+      rw [hz, zero_add]
+      exact (core 0 hA0 hγ' (le_refl _)).1 h1
+    · dsimp only
+      rw [pair_at_point_power, hv]
+      generalize hN : normSq (v - smul (dot v h.c.normal) h.c.normal) = N at h2 ⊢
+      have hN0 : 0 ≤ N := hN ▸ normSq_nonneg _
+      have hmu := (hollars_bounds (combineMu h.p1.us h.p2.us) (combineMu h.p1.ud h.p2.ud) (combineMu h.p1.uv h.p2.uv)
+        (sqrt N / vt) (sqrt N) hud hus huv (div_nonneg (hs.nonneg _) hvt.le) (hs.nonneg _)).1
+      have hs0 := hs.nonneg N
+      generalize sqrt N = s at hmu hs0 h2 ⊢
+      generalize hollars (K := K) _ _ _ _ _ = muv at hmu ⊢
+      have hF : 0 ≤ A * (1 + 3 / 2 * γ * dot v h.c.normal) := (not_le.mp h1).le
+      have hfn : dot (divS (smul (A * (1 + 3 / 2 * γ * dot v h.c.normal) * muv) (v - smul (dot v h.c.normal) h.c.normal)) s) h.c.normal = 0 := by
+        rw [fric_dot, tangent_dot_normal _ _ hn, mul_zero]
+      have hfr : 0 ≤ dot (divS (smul (A * (1 + 3 / 2 * γ * dot v h.c.normal) * muv) (v - smul (dot v h.c.normal) h.c.normal)) s)
+          (v - smul (dot v h.c.normal) h.c.normal) := by
+        rw [fric_dot]
+        have : dot (v - smul (dot v h.c.normal) h.c.normal) (v - smul (dot v h.c.normal) h.c.normal) = N := hN
+        rw [this]
+        exact mul_nonneg (div_nonneg (mul_nonneg hF hmu) hs0) hN0
+      generalize divS _ s = fr at hfn hfr ⊢
+      have e : dot (smul (A * (1 + 3 / 2 * γ * dot v h.c.normal)) h.c.normal + fr) v
+          = A * (1 + 3 / 2 * γ * dot v h.c.normal) * dot v h.c.normal + dot fr (v - smul (dot v h.c.normal) h.c.normal) := by
+        simp only [dot, smul, V3.add_x, V3.add_y, V3.add_z, V3.sub_x, V3.sub_y, V3.sub_z] at hfn ⊢
+        linear_combination (v.x * h.c.normal.x + v.y * h.c.normal.y + v.z * h.c.normal.z) * hfn
+      rw [e]
+      have := (core _ hA0 hγ' hfr).2
+      linarith [this]
+    · dsimp only
+      rw [pair_at_point_power, hv]
+      have e : dot (smul (A * (1 + 3 / 2 * γ * dot v h.c.normal)) h.c.normal + V3.zero) v
+          = A * (1 + 3 / 2 * γ * dot v h.c.normal) * dot v h.c.normal := by
+        simp only [dot, smul, V3.add_x, V3.add_y, V3.add_z, V3.zero_x, V3.zero_y, V3.zero_z]; ring
+      rw [e]
+      have := (core 0 hA0 hγ' (le_refl _)).2
+      linarith [this]
+  · simp only [hcContact, hertzPEofDepth]
+    split_ifs <;> ring
+
+omit [LinearOrder K] [IsStrictOrderedRing K] in
+theorem pair_at_point_power_flip (X1 X2 : Pose K) (V1 V2 : Vel K) (loc F : V3 K) :
+    (applyForceToBodyPoint X1 (X1.invApply loc) F).power V1 + (applyForceToBodyPoint X2 (X2.invApply loc) (-F)).power V2
+      = -(dot F (stationVel X2 V2 (X2.invApply loc) - stationVel X1 V1 (X1.invApply loc))) := by
+  simp only [applyForceToBodyPoint, applyAt_power, stationVel, dot, V3.sub_x, V3.sub_y, V3.sub_z, V3.add_x, V3.add_y,
+    V3.add_z, V3.neg_x, V3.neg_y, V3.neg_z]
+  ring
+
+/-- **ElasticFoundationForce**, one spring: with `x` the displacement and `vnormal` its rate,
+`d(PE)/dt = k a x·vnormal` (`PE = k a x²/2`) and `power + k a x·vnormal ≤ 0` -/
+theorem ef_power_eq (sqrt : K → K) (hs : SqrtSpec sqrt) (vt : K) (hvt : 0 < vt) (P : EFParams K) (area : K) (np sp : V3 K)
+    (X1 X2 : Pose K) (V1 V2 : Vel K) (hk : 0 ≤ P.stiffness) (ha : 0 ≤ area) (hc : 0 ≤ P.dissipation)
+    (hud : 0 ≤ P.ud) (hus : P.ud ≤ P.us) (huv : 0 ≤ P.uv) :
+    let o := efSpring sqrt vt P area np sp X1 X2 V1 V2
+    (o.F1.power V1 + o.F2.power V2) + P.stiffness * area * o.x * o.vnormal ≤ 0
+    ∧ o.pe = P.stiffness * area * (o.x * o.x) / 2 := by
+  have hsq := hs.sq _ (normSq_nonneg (np - sp))
+  have hs0 := hs.nonneg (normSq (np - sp))
+  have hz : (SpF.zero : SpF K).power V1 + (SpF.zero : SpF K).power V2 = 0 := by simp [SpF.power, dot]
+  simp only [efSpring]
+  by_cases h1 : ¬ (sqrt (normSq (np - sp)) < 0) ∧ ¬ (0 < sqrt (normSq (np - sp)))
+  · have h0 : sqrt (normSq (np - sp)) = 0 := le_antisymm (not_lt.mp h1.2) (not_lt.mp h1.1)
+    simp only [if_pos h1]
+    rw [hz, h0]; simp
+  · simp only [if_neg h1]
+    have hne : sqrt (normSq (np - sp)) ≠ 0 := by
+      intro h; apply h1; rw [h]; exact ⟨lt_irrefl _, lt_irrefl _⟩
+    have hunit := normSq_divS (np - sp) _ hsq hne
+    refine ⟨?_, by rw [hsq]⟩
+    generalize divS (np - sp) (sqrt (normSq (np - sp))) = n at hunit ⊢
+    generalize hv : stationVel X2 V2 (X2.invApply np) - stationVel X1 V1 (X1.invApply np) = v
+    have hA0 : 0 ≤ P.stiffness * area * sqrt (normSq (np - sp)) := mul_nonneg (mul_nonneg hk ha) hs0
+    generalize P.stiffness * area * sqrt (normSq (np - sp)) = A at hA0 ⊢
+    have core := contact_diss_nonpos A P.dissipation (dot v n)
+    generalize hN : normSq (v - smul (dot v n) n) = N
+    have hN0 : 0 ≤ N := hN ▸ normSq_nonneg _
+    have hmu := (hollars_bounds P.us P.ud P.uv (sqrt N / vt) (sqrt N) hud hus huv
+      (div_nonneg (hs.nonneg _) hvt.le) (hs.nonneg _)).1
+    have hsn := hs.nonneg N
+    generalize sqrt N = s at hmu hsn ⊢
+    generalize hollars (K := K) _ _ _ _ _ = muv at hmu ⊢
+    by_cases hf : 0 < A * (1 + P.dissipation * dot v n)
+    · by_cases hsl : s < 0 ∨ 0 < s
+      · have hcnd : 0 < A * (1 + P.dissipation * dot v n) ∧ (s < 0 ∨ 0 < s) := ⟨hf, hsl⟩
+        simp only [if_pos hcnd, if_pos hf]
+        rw [pair_at_point_power_flip, hv]
+        have hfn : dot (divS (smul (A * (1 + P.dissipation * dot v n) * muv) (v - smul (dot v n) n)) s) n = 0 := by
+          rw [fric_dot, tangent_dot_normal _ _ hunit, mul_zero]
+        have hfr : 0 ≤ dot (divS (smul (A * (1 + P.dissipation * dot v n) * muv) (v - smul (dot v n) n)) s) (v - smul (dot v n) n) := by
+          rw [fric_dot]
+          have : dot (v - smul (dot v n) n) (v - smul (dot v n) n) = N := hN
+          rw [this]
+          exact mul_nonneg (div_nonneg (mul_nonneg hf.le hmu) hsn) hN0
+        generalize divS _ s = fr at hfn hfr ⊢
+        have e : dot (smul (A * (1 + P.dissipation * dot v n)) n + fr) v
+            = A * (1 + P.dissipation * dot v n) * dot v n + dot fr (v - smul (dot v n) n) := by
+          simp only [dot, smul, V3.add_x, V3.add_y, V3.add_z, V3.sub_x, V3.sub_y, V3.sub_z] at hfn ⊢
+          linear_combination (v.x * n.x + v.y * n.y + v.z * n.z) * hfn
+        rw [e]
+        have := (core _ hA0 hc hfr).2
+        linarith [this]
+      · have hcnd : ¬ (0 < A * (1 + P.dissipation * dot v n) ∧ (s < 0 ∨ 0 < s)) := fun h => hsl h.2
+        simp only [if_neg hcnd, if_pos hf]
+        rw [pair_at_point_power_flip, hv]
+        have e : dot (smul (A * (1 + P.dissipation * dot v n)) n + V3.zero) v = A * (1 + P.dissipation * dot v n) * dot v n := by
+          simp only [dot, smul, V3.add_x, V3.add_y, V3.add_z, V3.zero_x, V3.zero_y, V3.zero_z]; ring
+        rw [e]
+        have := (core 0 hA0 hc (le_refl _)).2
+        linarith [this]
+    · have hcnd : ¬ (0 < A * (1 + P.dissipation * dot v n) ∧ (s < 0 ∨ 0 < s)) := fun h => hf h.1
+      simp only [if_neg hcnd, if_neg hf]
+      rw [pair_at_point_power_flip, hv]
+      have e : dot ((V3.zero : V3 K) + V3.zero) v = 0 := by simp [dot]
+      rw [e]
+      have := (core 0 hA0 hc (le_refl _)).1 (not_lt.mp hf)
+      linarith [this]
+
+/-- **ExponentialSpringForce**, normal part (not clamped at the cap): `fz·vz = −d(fzElas/d₂)/dt − cz vz² fzElas`,
+and when the force is clamped to zero the lost power is `−vz·fzElas ≤ 0` -/
+theorem exp_normal_power (E cz vz : K) (hE : 0 ≤ E) (hcz : 0 ≤ cz) :
+    -- E = fzElas = d₁ exp(−d₂(pz−d₀)); d(E/d₂)/dt = −vz·E
+    let fz := E + -cz * vz * E
+    ((¬ fz < 0) → fz * vz + (-(vz * E)) = -(cz * (vz * vz) * E) ∧ -(cz * (vz * vz) * E) ≤ 0)
+    ∧ (fz < 0 → (0 : K) * vz + (-(vz * E)) ≤ 0) := by
+  intro fz
+  constructor
+  · intro _
+    refine ⟨by simp only [fz]; ring, ?_⟩
+    have := mul_nonneg (mul_nonneg hcz (mul_self_nonneg vz)) hE
+    linarith
+  · intro h
+    simp only [fz] at h
+    have h1 : E * (1 - cz * vz) < 0 := by linarith [show E + -cz * vz * E = E * (1 - cz * vz) by ring]
+    have hEpos : 0 < E := by
+      rcases eq_or_lt_of_le hE with h0 | h0
+      · rw [← h0] at h1; simp at h1
+      · exact h0
+    have h2 : 1 - cz * vz < 0 := by
+      by_contra hc; have := mul_nonneg hE (not_lt.mp hc); linarith
+    have hv : 0 ≤ vz := by
+      by_contra hc
+      have := mul_nonneg hcz (neg_nonneg.mpr (not_le.mp hc).le); linarith
+    have := mul_nonneg hv hE
+    linarith
+
+/-- rate of the exponential spring's normal strain energy `fzElas/d₂` (jet of `exp`: `exp(a+εb) = exp a + ε b exp a`) -/
+theorem exp_pe_rate (expv d1 d2 vz : K) (hd2 : d2 ≠ 0) :
+    -- value `expv = exp(−d₂(pz−d₀))`; its jet along `ṗz = vz` is `⟨expv, −d₂ vz expv⟩`
+    ((Jet.const d1 * (⟨expv, -d2 * vz * expv⟩ : Jet K)) / Jet.const d2).eps = -(vz * (d1 * expv)) := by
+  simp only [Jet.div_eps, Jet.mul_eps, Jet.mul_re, Jet.const_re, Jet.const_eps]
+  field_simp
+  ring
 end ordered
 
 end ForceLaws
